@@ -33,8 +33,12 @@ def _rng(run: str):
 _CACHE: dict = {}
 
 
-def run_data(run: str, shape=(2, 5, 1), dims: int = 2) -> dict:
+RUN_DIMS = {"A": 12, "A2": 12, "B": 2}      # number of parameters per run (more than ten: column names no longer sort numerically)
+
+
+def run_data(run: str, shape=(2, 5, 1), dims: int | None = None) -> dict:
     """the full-length arrays of a run; state (run, rows) is their prefix"""
+    dims = RUN_DIMS.get(run, 2) if dims is None else dims
     key = (run, shape, dims)
     if key in _CACHE:
         return _CACHE[key]
